@@ -6,7 +6,7 @@ prop,n,caught,outcome=sys.argv[1:5]
 strength=sys.argv[5] if len(sys.argv)>5 else ""
 import os as _os
 rnd=_os.environ.get("SEED_ROUND","")
-off={'':0,'2':2,'3':4}[rnd]
+off={'':0,'2':2,'3':4,'4':6}[rnd]
 src=f"/tmp/seed{rnd}-{prop}/SEED/{n}"; dst=f"/verif/seeded/{prop}-{int(n)+off}"
 if os.path.exists(dst): shutil.rmtree(dst)
 os.makedirs(dst)
